@@ -255,3 +255,28 @@ Proof.
   apply (flat_nodup _ (field_names d)); [exact NC|]. rewrite <- A.
   apply Forall_forall. intros v Hv. apply (flat_validators tab); assumption.
 Qed.
+
+(* ---------- output files (writeFile): <source>_<lower-cased type name>_validator.go ---------- *)
+Definition out_file (lower : ident -> ident) (src T : ident) : bytes := src ++ bs "_" ++ lower T ++ bs "_validator.go".
+
+Lemma out_file_collision lower src a b : out_file lower src a = out_file lower src b <-> lower a = lower b.
+Proof.
+  unfold out_file. split; [|intros ->; reflexivity]. intro H.
+  apply app_inv_head in H. apply app_inv_head in H. apply app_inv_tail in H. exact H.
+Qed.
+
+(* the structs of one source file get pairwise different files iff their lower-cased names are pairwise different *)
+Theorem out_files_distinct lower src (Ts : list ident) : NoDup (map lower Ts) <-> NoDup (map (out_file lower src) Ts).
+Proof.
+  induction Ts as [|T Ts IH]; cbn [map]; [split; constructor|]. split; intro H; inversion H as [|? ? N D]; subst; constructor.
+  - intro X. apply N. apply in_map_iff in X as (u & E & I). apply out_file_collision in E. apply in_map_iff. exists u. auto.
+  - apply IH. exact D.
+  - intro X. apply N. apply in_map_iff in X as (u & E & I). apply in_map_iff. exists u. split; [|exact I].
+    apply out_file_collision. exact E.
+  - apply IH. exact D.
+Qed.
+
+Definition ascii_lower_byte (c : Byte.byte) : Byte.byte :=
+  let n := Byte.to_N c in
+  if (N.leb 65 n && N.leb n 90)%bool then match Byte.of_N (n + 32) with Some d => d | None => c end else c.
+Definition ascii_lower (s : ident) : ident := map ascii_lower_byte s.
